@@ -11,6 +11,7 @@ package main
 
 import (
 	"context"
+	"encoding/json"
 	"errors"
 	"fmt"
 	"io"
@@ -285,3 +286,159 @@ func backendSweep(r *h.Run) {
 }
 
 var _ = ce.ErrUnknown
+
+// ---------- errors that already have a library kind, with messages / causes that trigger OTHER rules ----------
+
+// expectedPass mirrors [expected_pass] of coq/C11/Conv.v: the kinds each converter is expected to leave alone whatever
+// the message says (platform.ConvertError: context kinds, not implemented, unsupported; ConvertFileSystemError: context
+// kinds; ConvertIOError: every kind; ConvertProcessError: none).
+func expectedPass(conv string, k int) bool {
+	switch conv {
+	case "platform":
+		return kinds[k] == ce.ErrTimeout || kinds[k] == ce.ErrCancelled || kinds[k] == ce.ErrNotImplemented || kinds[k] == ce.ErrUnsupported
+	case "fs":
+		return kinds[k] == ce.ErrTimeout || kinds[k] == ce.ErrCancelled
+	case "io":
+		return true
+	}
+	return false
+}
+
+type convTriggers struct {
+	Pre     []string `json:"pre"`
+	Strings []string `json:"strings"`
+	Targets []string `json:"targets"`
+	Helpers []string `json:"helpers"`
+}
+
+// the trigger strings of a converter and of the converters it calls first, from the GENERATED table
+func triggerStrings(all map[string]convTriggers, conv string) []string {
+	t := all[conv]
+	out := append([]string{}, t.Strings...)
+	for _, p := range t.Pre {
+		if p == "platform.ConvertError" {
+			out = append(out, all["platform"].Strings...)
+		}
+	}
+	return out
+}
+
+type libScenario struct {
+	Conv  string `json:"conv"`
+	Kind  int    `json:"kind"`
+	Msg   string `json:"msg"`
+	Cause string `json:"cause,omitempty"` // name of a base value: the error is WrapError(kind, cause, msg)
+	Outer string `json:"outer,omitempty"` // a second constructor around it: New(e, outer)
+}
+
+func runLib(r *h.Run, ls libScenario, emit bool) {
+	var cv *convFn
+	for i := range convFns {
+		if convFns[i].name == ls.Conv {
+			cv = &convFns[i]
+		}
+	}
+	if cv == nil || ls.Kind < 0 || ls.Kind >= len(kinds) || kinds[ls.Kind] == nil {
+		return
+	}
+	k := kinds[ls.Kind]
+	var in error
+	var coq string
+	if ls.Cause != "" {
+		var cause *bval
+		for _, b := range baseValues() {
+			if b.name == ls.Cause {
+				b := b
+				cause = &b
+			}
+		}
+		if cause == nil {
+			return
+		}
+		in = ce.WrapError(k, cause.val, ls.Msg)
+		coq = fmt.Sprintf("(b_wrap_error (BK %d%%nat) %s %s)", ls.Kind, cause.coq, h.Str(ls.Msg))
+	} else {
+		in = ce.New(k, ls.Msg)
+		coq = fmt.Sprintf("(b_new %d%%nat %s)", ls.Kind, h.Str(ls.Msg))
+	}
+	if ls.Outer != "" {
+		in = ce.New(in, ls.Outer)
+		coq = fmt.Sprintf("(b_errorf %s %s)", coq, h.Str(ls.Outer))
+	}
+	sc := scenario{Kind: "lib", Lib: &ls}
+	r.Eval()
+	r.Count("library-kind-input:" + ls.Conv)
+	out := cv.f(in)
+	if emit && modelSafe([]byte(ls.Msg), []byte(ls.Outer)) {
+		txt := ""
+		var ks []int
+		if out != nil {
+			txt, ks = out.Error(), kindsOf(out)
+		}
+		r.Case(fmt.Sprintf("(CConvB %d %s %s %s %s)", cv.id, coq, h.Bool(out == nil), h.Str(txt), coqNats(ks)), sc)
+	}
+	if expectedPass(ls.Conv, ls.Kind) {
+		if out == nil || !eqInts(kindsOf(out), []int{ls.Kind}) {
+			r.Fail("library-kind-reclassified:"+ls.Conv, fmt.Sprintf("%s converter turns %q, which already is of kind %s, into %s (%v)", ls.Conv, in.Error(), kindNames[ls.Kind], outcome(out), out), sc)
+			return
+		}
+		r.Distinct("lib|" + ls.Conv + "|" + kindNames[ls.Kind] + "|" + ls.Msg + "|" + ls.Cause)
+	}
+	// whatever the converter makes of it, converting again does not change the outcome
+	if out != nil {
+		if again := cv.f(out); outcome(again) != outcome(out) {
+			r.Fail("converter-not-idempotent:"+ls.Conv, fmt.Sprintf("%s converter maps %q to %s (%q) and that to %s", ls.Conv, in.Error(), outcome(out), out.Error(), outcome(again)), sc)
+		}
+	}
+}
+
+func libSweep(r *h.Run) {
+	path := "../coq/C11/convrules.json"
+	if root := os.Getenv("VERIF_ROOT"); root != "" {
+		path = root + "/coq/C11/convrules.json"
+	}
+	all := map[string]convTriggers{}
+	bs, err := os.ReadFile(path)
+	if err != nil || json.Unmarshal(bs, &all) != nil || len(all) == 0 {
+		r.Fail("converter-table-unreadable", "cannot read the generated trigger table "+path, nil)
+		return
+	}
+	bases := baseValues()
+	known := map[string]bool{}
+	var causes []bval
+	for _, b := range bases {
+		known[b.name] = true
+		if isBackendCondition(b) { // every named value / errno / text the tables mention, and an unrelated error
+			causes = append(causes, b)
+		}
+	}
+	for name, t := range all {
+		for _, tg := range t.Targets {
+			if !known[tg] && !strings.HasPrefix(tg, "commonerrors.") && tg != "syscall.ESRCH" {
+				r.Note("converter " + name + " mentions " + tg + ", which the harness does not know: not used as a cause")
+			}
+		}
+	}
+	n := 0
+	for _, cv := range convFns {
+		strs := triggerStrings(all, cv.name)
+		for k := range kinds {
+			if kinds[k] == nil {
+				continue
+			}
+			pass := expectedPass(cv.name, k)
+			for si, s := range strs {
+				for vi, m := range []string{s, "the operation is " + strings.ToUpper(s) + " here", s + ": " + s} {
+					n++
+					runLib(r, libScenario{Conv: cv.name, Kind: k, Msg: m}, pass && vi < 2 || (n+k+si)%9 == 0)
+				}
+				runLib(r, libScenario{Conv: cv.name, Kind: k, Msg: "step 2", Outer: s}, pass || (k+si)%7 == 0)
+			}
+			for ci, c := range causes {
+				n++
+				runLib(r, libScenario{Conv: cv.name, Kind: k, Msg: "operation failed", Cause: c.name}, pass && (cv.name != "io" || (k+ci)%6 == 0) || (n+k+ci)%11 == 0)
+			}
+			runLib(r, libScenario{Conv: cv.name, Kind: k, Msg: "nothing special"}, (k+cv.id)%5 == 0)
+		}
+	}
+}
